@@ -405,11 +405,9 @@ def call_numpy(it, tail, args, kwargs, env, node, chain):
         return op("indices", t[0])
     if tail == "angle":
         # np.angle(a + 1j*b) with a, b free of the imaginary unit is arctan2(b, a)
-        z = sp.expand(t[0])
-        b_ = z.coeff(sp.I)
-        a_ = z - sp.I * b_
-        if b_ != 0 and not a_.has(sp.I) and not b_.has(sp.I) and kw(kwargs, "deg") in (None, False):
-            return sp.atan2(b_, a_)
+        p_ = split_complex(t[0]) if t[0].has(sp.I) else None
+        if p_ is not None and p_[1] != 0 and kw(kwargs, "deg") in (None, False):
+            return sp.atan2(p_[1], p_[0])
         return op("angle", t[0])
     if tail == "linalg.norm":
         return op("norm", t[0])
@@ -514,11 +512,52 @@ TERM_ATTRS_OPAQUE = {"shape", "dims", "coords", "ndim", "size", "dtype", "name",
                      "columns", "attrs", "x", "status_code", "text", "content", "real", "imag", "start", "stop"}
 
 
+def split_complex(z):
+    """(real part, imaginary part) of a term in which the imaginary unit occurs only as an explicit factor 1j of real quantities (a
+    complex number used as a container for two reals, e.g. complex(a, b) accumulated in a loop): linear constructs - sums, loop sums,
+    tabulations, selections, element reads - are split part by part.  None when the unit occurs in any other way."""
+    z = to_term(z)
+    if not z.has(sp.I):
+        return z, sp.Integer(0)
+    f = fname(z)
+    if f in ("loopsum", "loopsum_brk", "loopprefix", "item", "lastiter") and z.args:
+        p_ = split_complex(z.args[0])
+        if p_ is None or any(a.has(sp.I) for a in z.args[1:]):
+            return None
+        return op(f, p_[0], *z.args[1:]), op(f, p_[1], *z.args[1:])
+    if f in ("ite", "where") and len(z.args) == 3 and not z.args[0].has(sp.I):
+        a_, b_ = split_complex(z.args[1]), split_complex(z.args[2])
+        if a_ is None or b_ is None:
+            return None
+        mk = ITE if f == "ite" else make_where
+        return mk(z.args[0], a_[0], b_[0]), mk(z.args[0], a_[1], b_[1])
+    if isinstance(z, sp.Add):
+        parts = [split_complex(a) for a in z.args]
+        if any(p_ is None for p_ in parts):
+            return None
+        return sp.Add(*[p_[0] for p_ in parts]), sp.Add(*[p_[1] for p_ in parts])
+    if isinstance(z, sp.Mul):
+        cplx = [a for a in z.args if a.has(sp.I)]
+        rest = sp.Mul(*[a for a in z.args if not a.has(sp.I)])
+        if len(cplx) == 1:
+            if cplx[0] == sp.I:
+                return sp.Integer(0), rest
+            p_ = split_complex(cplx[0])
+            if p_ is not None:
+                return rest * p_[0], rest * p_[1]
+        return None
+    return None
+
+
 def term_attr(it, base, attr, env, node):
     from .interp import TermMethod
 
     if attr in IDENTITY_ATTRS:
         return base
+    if attr in ("real", "imag") and isinstance(base, sp.Basic):
+        p_ = split_complex(base)
+        if p_ is not None:
+            return p_[0] if attr == "real" else p_[1]
     if attr == "real":
         return sp.re(base)
     if attr == "imag":
@@ -1059,6 +1098,8 @@ def call_builtin(it, name, args, kwargs, env, node):
         return op("len", tv)
     if name == "range":
         return op("range", *[to_term(a) for a in args])
+    if name == "complex" and len(args) == 2:
+        return to_term(args[0]) + sp.I * to_term(args[1])
     if name in ("int", "float", "complex"):
         if not args:
             return sp.Integer(0)
